@@ -25,6 +25,14 @@ Fixpoint stats_eqb (a b : list stat) : bool :=
   | _, _ => false
   end.
 
+(* a is a prefix of b *)
+Fixpoint stats_prefixb (a b : list stat) : bool :=
+  match a, b with
+  | [], _ => true
+  | x :: a', y :: b' => stat_eqb x y && stats_prefixb a' b'
+  | _ :: _, [] => false
+  end.
+
 Fixpoint listN_eqb (a b : list N) : bool :=
   match a, b with
   | [], [] => true
@@ -136,7 +144,11 @@ Definition run_1901 (input impl : sx) : sx :=
       let model_reqs := filter (fun i => match nth_error annS i with
                                          | Some s => negb (has_link s) && need_content s
                                          | None => false end) (map snd (r_files m)) in
-      let sender_model := stats_eqb (hardlink_reset (map fst srcE)) announced in
+      (* when Receive fails the stream is torn down and the sender may have been cut off: the
+         packet log then holds a PREFIX of what the sender model announces (it always contains
+         the STAT the receiver rejected) *)
+      let sender_model := if success then stats_eqb (hardlink_reset (map fst srcE)) announced
+                          else stats_prefixb announced (hardlink_reset (map fst srcE)) in
       let model_obs :=
         if acc then SL [SN 1; SN 1; SL (map enc_stat (r_listing m)); SL (map of_nat model_reqs);
                         SL (map (fun s => SB (st_path s)) (r_forwarded m))]
